@@ -7,9 +7,10 @@ MC_ASSUMPTIONS = [
     "are not covered",
     "job bodies honour cancellation (possibly after cancel_delay), shutdown "
     "handlers do not raise; durations are small integers or 'never'",
-    "bounds: <=4 jobs per scheduler, depth <=3, <=k non-default attributes "
-    "per scenario, schedule deviation bound as reported (unbounded for "
-    "scenarios counted in exhausted_scenarios)",
+    "bounds: all labelled DAGs on <=4 jobs per scheduler, sparse DAGs on 5-6 "
+    "jobs, depth <=3, <=k open attribute values on top of the forced "
+    "features, schedule deviation bound as reported (unbounded for scenarios "
+    "counted in exhausted_scenarios)",
 ]
 
 SPACE_TEXT = ("scenario space: shape families (all labelled DAGs on <=3-4 "
